@@ -72,7 +72,8 @@ def get_key(accidentals=0):
     """
     if accidentals not in range(-7, 8):
         raise RangeError("integer not in range (-7)-(+7).")
-    return keys[accidentals + 7]
+    # (1.0 is in that range too: the row is picked by the integer it equals)
+    return keys[int(accidentals) + 7]
 
 
 def get_key_signature(key="C"):
